@@ -160,6 +160,19 @@ func (g *guarded) place(b []byte) []byte {
 	return g.region[off:g.usable:g.usable]
 }
 
+// placeWithTail copies b followed by tail so that tail ends at the guard page and returns b's copy with the tail as
+// spare capacity (len(b), cap len(b)+len(tail)): what a reader gets that was handed buf[:k] of a larger receive buffer.
+// Bytes beyond len are not part of the input, whatever the capacity says.
+func (g *guarded) placeWithTail(b, tail []byte) []byte {
+	if len(b)+len(tail) > g.usable {
+		verifsim.Fatalf("guarded buffer too small")
+	}
+	off := g.usable - len(b) - len(tail)
+	copy(g.region[off:], b)
+	copy(g.region[off+len(b):g.usable], tail)
+	return g.region[off : off+len(b) : g.usable]
+}
+
 // ---------------------------------------------------------------- output arenas with canaries
 
 // canaryAt is what the byte at arena offset i holds before the call: a position-dependent pattern without short
@@ -828,11 +841,19 @@ func (r *Runner) execDec(op *OpSpec, st *Step) *Rec {
 			vo = model.VOpt{Budget: 400, Present: 0.97}
 		}
 		pw := model.GenValue(r.C, sd, model.Mix(op.VSeed, 0x11), vo)
+		if op.FSeed%2 == 1 && m.w != nil && r.Spec.Prof != "C09" {
+			// a destination that already holds the very value the (possibly damaged) message was made from: a reused
+			// object whose slices and maps have exactly the room the message announces
+			pw = m.w
+		}
 		model.Realise(r.C, sd, pw, dst.Elem())
 	}
 	if in == nil {
 		if r.Spec.Prof == "C06" {
 			in = newGuarded(len(m.bytes)).place(m.bytes) // its own region: it must stay put while the object lives
+		} else if len(m.bytes) < len(m.clean) && op.FSeed%2 == 0 && string(m.clean[:len(m.bytes)]) == string(m.bytes) {
+			// a truncated message that arrives as a window buf[:k] of the buffer holding the whole one
+			in = r.guardedFor(st.Task, len(m.clean)).placeWithTail(m.bytes, m.clean[len(m.bytes):])
 		} else {
 			in = r.guardedFor(st.Task, len(m.bytes)).place(m.bytes)
 		}
@@ -1007,6 +1028,11 @@ func (r *Runner) decodeOnce(op *OpSpec, st *Step, sd *model.StructDef, m *messag
 	}
 	canon := model.Digest(model.CanonValue(dst.Elem()))
 	res.D = model.Digest([]byte("dec n=" + strconv.Itoa(n) + " cls=" + res.Cls + " err=" + res.Err + " dst=" + canon))
+	if res.Cls == "ok" && op.VSeed%2 == 0 && !sd.Rejected() && (r.Spec.Prof == "C07" || r.Spec.Prof == "C08" || r.Spec.Prof == "C17") {
+		// the caller owns what was decoded: it writes into it (after the result was recorded). Nothing of that may
+		// show in any later result.
+		model.Scribble(r.C, sd, dst.Elem(), 0)
+	}
 	switch r.Spec.Prof {
 	case "C05":
 		r.c05check(op, st, sd, m, in, res, pc, pt)
